@@ -143,6 +143,7 @@ func (w *worker) stop() {
 }
 
 type violGroup struct {
+	Sched []int
 	V     interp.Violation
 	Run   string
 	Func  string
@@ -180,6 +181,7 @@ type runStats struct {
 type passRec struct {
 	Model map[string]uint64
 	Obs   []interp.Observation
+	Sched []int
 }
 
 func envInt(name string, def int) int {
@@ -426,7 +428,7 @@ func checkMain(args []string) int {
 						sig := traceSig(res.Trace)
 						st.DistinctSig[sig] = true
 						if len(res.Violations) == 0 && len(st.passing) < 4096 {
-							st.passing = append(st.passing, passRec{res.Model, res.Obs})
+							st.passing = append(st.passing, passRec{res.Model, res.Obs, res.Sched})
 						}
 						if len(st.Samples) < 3 {
 							st.Samples = append(st.Samples, map[string]interface{}{
@@ -453,7 +455,7 @@ func checkMain(args []string) int {
 						}
 						g := groups[key]
 						if g == nil {
-							g = &violGroup{V: v, Run: run.Name, Func: run.Func, Pkg: run.Pkg, Params: ts.Params}
+							g = &violGroup{V: v, Run: run.Name, Func: run.Func, Pkg: run.Pkg, Params: ts.Params, Sched: res.Sched}
 							groups[key] = g
 							groupOrder = append(groupOrder, key)
 							if v.Kind == "race" {
@@ -514,7 +516,7 @@ func checkMain(args []string) int {
 				idxs = idxs[:nval]
 			}
 			for _, i := range idxs {
-				valJobs = append(valJobs, valJob{st: st, pkg: run.Pkg, rep: &Replay{Pkg: run.Pkg, Func: run.Func, Inputs: st.passing[i].Model, Params: ts.Params}, want: obsText(st.passing[i].Obs)})
+				valJobs = append(valJobs, valJob{st: st, pkg: run.Pkg, rep: &Replay{Pkg: run.Pkg, Func: run.Func, Inputs: st.passing[i].Model, Params: ts.Params, Sched: st.passing[i].Sched}, want: obsText(st.passing[i].Obs)})
 			}
 		}
 	}
@@ -556,7 +558,7 @@ func checkMain(args []string) int {
 	sort.Strings(groupOrder)
 	for gi, key := range groupOrder {
 		g := groups[key]
-		rp := &Replay{Pkg: g.Pkg, Func: g.Func, Inputs: g.V.Model, Params: g.Params, Expect: g.V.Label}
+		rp := &Replay{Pkg: g.Pkg, Func: g.Func, Inputs: g.V.Model, Params: g.Params, Expect: g.V.Label, Sched: g.Sched}
 		path := filepath.Join(*replayDir, fmt.Sprintf("%s-%s-%d.json", spec.Property, *tier, gi))
 		kf := matchKnown(&known, spec.Property, g)
 		confirmed := false
@@ -738,6 +740,7 @@ type Replay struct {
 	Inputs map[string]uint64 `json:"inputs"`
 	Params map[string]int64  `json:"params"`
 	Expect string            `json:"expect,omitempty"`
+	Sched  []int             `json:"sched,omitempty"`
 }
 
 type Outcome struct {
